@@ -27,7 +27,8 @@ LEVEL_TEXT = ("Generated-input search. The inclusion clause needs no oracle and 
               "large boards. The exact-set clause compares the reported list, order included, with the exact optimal "
               "set of the conditioned game for every decided state in scope; undecided states (near-ties in cyclic "
               "games, which the statement excludes) are counted. Exploration: infinite domain."
-              ' Added while validating sensitivity: twin Player 1 / Player 2 states with equal transition lists (half sharing the list object), slowly separating reward branches.')
+              ' Added while validating sensitivity: twin Player 1 / Player 2 states with equal transition lists (half sharing the list object), slowly separating reward branches.'
+              ' Later rounds: loop-free games with rewards in the millions that differ by units, pure-integer games with rewards beyond 2^53 (differences of 1 at 10^25), final states that are not absorbing, stale-zero Player 1 states.')
 LEVEL_NOTE = ("Trusted: harness/exact.py and conditioned_game(); decidability rule gap 0 (acyclic: any value; cyclic: "
               "only value 0 or identical successor) or gap > threshold x (T_c+1) + 1e-6.")
 RULE = ("case = (game, pruning mode) from: acyclic stopping games with small integer rewards (ties frequent), "
